@@ -3,11 +3,11 @@ CONSTANTS
   SID = {1}
   Profiles <- ProfSmall
   MaxVal = 0
-  DEV <- NoDev
-  MaxVer = 4
+  DEV <- Dev_CopyBumpOnlyToSrcStage
+  MaxVer = 3
   WithSnap = FALSE
   SelfCopy = TRUE
 CONSTRAINT VerBound
 VIEW View
-INVARIANTS TypeOK SysStageLeMin Refinement StrongRefinement ValuesAgree RecVerLeVer PrereqsExist
+INVARIANTS Refinement
 CHECK_DEADLOCK FALSE
